@@ -173,7 +173,7 @@ pub fn run(eng: &Engine) {
     eng.set_rule("training sources (empty, < 16 B, < one segment, text-like, binary, constant, periodic; bounded to 40 KiB quick / 256 KiB thorough because the builder is quadratic) x source-size estimate {exact, 0, smaller, larger, x100, k << 32 (low 32 bits zero)} x dict_size {0, 1, 15, 16, 100, 1 KiB, 64 KiB, random, > source} x reader chunking, through create_raw_dict_from_source and create_raw_dict_from_dir (temporary directory with nested files); oracle: returns without panic within the deadline (an overrun is a violation of kind hang) and writes at most dict_size bytes; non-trivial = source >= 16 bytes with an estimate different from its length, or dict_size < source length; distinct by case hash; the builder's unseeded fastrand is seeded from the case so failures replay");
     eng.assume("sources are bounded to 256 KiB: the builder re-scores the whole sample for every 100 bytes read");
     let tier = eng.tier;
-    let n = eng.tier.pick(600, 12_000);
+    let n = eng.tier.pick(2_000, 30_000);
     eng.run_stage("builder_cases", n, || case_strategy(tier), check);
     let _ = std::fs::remove_dir_all(std::path::PathBuf::from(VERIF_ROOT).join("target/c20"));
 }
